@@ -54,7 +54,8 @@ func (r *mkRep) update(tr *tracer.T, ents []mkEntry) {
 	for i, e := range ents {
 		var p kv.Pair
 		if err := json.Unmarshal(out[i].Result.Data, &p); err != nil {
-			die("result data: %v", err)
+			// an observation, not a driver error: the reported pair is what it is (the specification rejects it)
+			p = kv.Pair{Key: "/undecodable-result", Value: string(out[i].Result.Data)}
 		}
 		evs[i] = map[string]any{"i": e.I, "op": e.Op, "k": e.K, "val": e.Val, "ver": e.Ver,
 			"code": out[i].Result.Value, "rk": splitKey(p.Key), "rval": p.Value, "rver": p.Ver}
